@@ -202,6 +202,21 @@ def rollout_lens(cfg, call, phase, K):
     return lens, phase
 
 
+def eps_checkable(cfg, impl):
+    """per learn() call: the callback indices at which DQN._on_step has already run at least once
+    (before that the exploration rate still has its initial value 0.0)"""
+    ran, out = False, []
+    for call, rc in zip(cfg["calls"], impl["calls"]):
+        ks = []
+        for k in range(len(rc["nums"])):
+            if ran:
+                ks.append(k)
+            if call.get("stop_at_step") != k + 1:
+                ran = True                      # the step was not aborted by the callback: _on_step ran
+        out.append(ks)
+    return out
+
+
 # ---------------------------------------------------------------- oracle (from the property text)
 
 def oracle(cfg, impl):
@@ -291,9 +306,8 @@ def oracle(cfg, impl):
                 probs.append(("oracle-progress-increases-during-call", f"{where}: {nm} went from {inc[0][0]!r} to {inc[0][1]!r}"))
         # (6) DQN: exploration_rate = linear schedule (1.0 -> 0.05 over the first 10 %) of the progress, after every env step
         if cfg["algo"] == "DQN":
-            for k, (p, eps) in enumerate(zip(rc["cb_progress"], rc["cb_eps"])):
-                if ci == 0 and k == 0:
-                    continue                     # before the first _on_step the rate is its initial 0.0
+            for k in eps_checkable(cfg, impl)[ci]:
+                p, eps = rc["cb_progress"][k], rc["cb_eps"][k]
                 want = 0.05 if (1 - p) > 0.1 else 1.0 + (1 - p) * (0.05 - 1.0) / 0.1
                 if abs(eps - want) > 1e-12:
                     probs.append(("oracle-exploration-rate-not-schedule-of-progress", f"{where}: env step {k}: exploration_rate {eps!r} with progress {p!r}, schedule gives {want!r}"))
@@ -312,7 +326,7 @@ def model_exprs(cfg, impl):
     mode = "OnPolicy" if on else f"(OffPolicy {coq_Z(cfg['learning_starts'])} {coq_Z(cfg['gradient_steps'])})"
     exprs = []
     num, phase, first = 0, 0, True
-    for call, rc in zip(cfg["calls"], impl["calls"]):
+    for ci, (call, rc) in enumerate(zip(cfg["calls"], impl["calls"])):
         if call["reset"] or first:
             phase = 0
         first = False
@@ -326,7 +340,7 @@ def model_exprs(cfg, impl):
         ns = [t["num"] for t in rc["trains"]]
         exprs.append(f"qclose_list 0 (1 # 1000000000000)%Q (map (fun n => progress n {coq_Z(target)}) {coq_list(ns, coq_Z)}) {coq_list(ps, coq_Q)}")
         if cfg["algo"] == "DQN":
-            pe = [(p, e) for k, (p, e) in enumerate(zip(rc["cb_progress"], rc["cb_eps"])) if not (len(exprs) == 2 and k == 0)][:12]
+            pe = [(rc["cb_progress"][k], rc["cb_eps"][k]) for k in eps_checkable(cfg, impl)[ci]][:12]
             exprs.append(f"qclose_list 0 (1 # 1000000000)%Q (map (fun p => linear_fn p 1 (1 # 20) (1 # 10)) {coq_list([Fraction(p) for p, _ in pe], coq_Q)}) {coq_list([Fraction(e) for _, e in pe], coq_Q)}")
         num = rc["final"]            # the next call starts from where the implementation is (compared above)
         phase += len(rc["nums"])
